@@ -3,7 +3,7 @@
 import glob, json, os
 root = os.path.dirname(os.path.dirname(os.path.abspath(__file__)))
 rows = []
-for d in sorted(glob.glob(os.path.join(root, "seeded", "C*"))):
+for d in sorted(x for x in glob.glob(os.path.join(root, "seeded", "C*")) if os.path.isdir(x)):
     pid = os.path.basename(d)
     meta = {}
     mp = os.path.join(d, "meta.json")
